@@ -38,6 +38,8 @@ type GEntry struct {
 type GCase struct {
 	Stream   string     `json:"stream"`
 	Layers   [][]GEntry `json:"layers"`
+	Hist     []bool     `json:"hist"`      // config history: EmptyLayer flag per entry
+	HistMode string     `json:"hist_mode"` // match (possibly with empty entries) | none | missing | surplus
 	Depth    int        `json:"depth"`
 	Queries  []string   `json:"queries"`
 	Obs      []Obs      `json:"obs,omitempty"`
@@ -86,7 +88,7 @@ func runGeneral(c *GCase) {
 		}
 		ls = append(ls, ms)
 	}
-	im := buildRawImage(ls)
+	im := setHistory(buildRawImage(ls), c.Hist)
 	cfg := img.DefaultConfig()
 	cfg.MaxSymlinkDepth = c.Depth
 	x, err := img.FromV1Image(im, cfg)
@@ -377,6 +379,23 @@ func genGeneral(r *rand.Rand, n int) []*GCase {
 			sort.Strings(qs)
 		}
 		c.Queries = qs
+		switch c.HistMode = []string{"match", "match", "none", "missing", "surplus"}[r.Intn(5)]; c.HistMode {
+		case "match": // one entry per layer, with empty-layer entries in between
+			for range c.Layers {
+				for r.Intn(4) == 0 {
+					c.Hist = append(c.Hist, true)
+				}
+				c.Hist = append(c.Hist, false)
+			}
+			if r.Intn(4) == 0 {
+				c.Hist = append(c.Hist, true)
+			}
+		case "none":
+		case "missing":
+			c.Hist = make([]bool, len(c.Layers)-1)
+		case "surplus":
+			c.Hist = make([]bool, len(c.Layers)+1)
+		}
 		out = append(out, c)
 	}
 	return out
@@ -454,7 +473,11 @@ func coqGCase(t *nameTable, c *GCase) string {
 		os = append(os, fmt.Sprintf("mkGQ %d %s (%s) (%s) (%s)", o.View, t.ref(strings.TrimPrefix(o.Name, "/")),
 			gOutcome(t, o.Stat), gOutcome(t, o.Open), gRd(t, o.ReadDir)))
 	}
-	return fmt.Sprintf("mkG (mkIm %s) %d\n     %s", cf.List(ls), c.Depth, cf.List(os))
+	hs := make([]string, len(c.Hist))
+	for i, h := range c.Hist {
+		hs[i] = cf.Bool(h)
+	}
+	return fmt.Sprintf("mkG (mkImH %s %s) %d\n     %s", cf.List(ls), cf.List(hs), c.Depth, cf.List(os))
 }
 
 const gheader = "From Coq Require Import List NArith ZArith Bool.\nFrom Scalibr Require Import Image.PathTree Image.Fill Symlink.General.\nImport ListNotations.\n"
